@@ -1,0 +1,15 @@
+// Copyright 2024 The Mellium Contributors.
+// Use of this source code is governed by the BSD 2-clause
+// license that can be found in the LICENSE file.
+
+//go:build verif
+
+package ibb
+
+// VerifSetSeq sets the sequence number of the next data packet written (w) and
+// of the next data packet expected (r), so that a verification harness can
+// reach the wrap-around at 65536 without sending 65536 packets first.
+func (c *Conn) VerifSetSeq(w, r uint16) {
+	c.stanzaWriter.seq = w
+	c.seq = r
+}
